@@ -294,7 +294,7 @@ Why(C, X, e) ==
              ELSE IF X.st[n] = "ok" THEN "verdict-raise-instead-of-return" \o Claim(e, n) \o "-spec-" \o X.cause[n]
              ELSE IF X.st[n] = "exc" /\ X.res[n] # <<"exc", e.i>> THEN "verdict-exception-identity" \o Claim(e, n) \o "-spec-" \o X.cause[n]
              ELSE "run-exc-other")
-       [] e.k = "diag" -> "diagnosis"
+       [] e.k = "diag" -> "diagnosis-claims-" \o e.v \o "-spec-" \o X.cause[n]
        [] e.k = "shut" ->
             (IF Marked("shut", n) THEN "shut-twice"
              ELSE IF X.sh[n] = "none" /\ \E b \in Desc(C, p) : Live(X, b) THEN "shut-while-sibling-live"
